@@ -228,6 +228,7 @@ def _lookup_spec(slot):
         "has_key": ("has_key() with an unusable key", lambda r, x: r == "NN" and x == "none", "False, no exception"),
         "mp_ass_subscript": ("item assignment with an unusable key/value", lambda r, x: r == -1 and x == "TypeError", "-1 + TypeError"),
         "insert/add": ("insert()/add() with an unusable key", lambda r, x: r == 0 and x == "TypeError", "NULL + TypeError"),
+        "pop/setdefault/remove": ("pop()/setdefault()/remove() with an unusable key", lambda r, x: r == 0 and x == "TypeError", "NULL + TypeError"),
     }[slot]
 
 
@@ -249,8 +250,11 @@ def analyse_tu(tu):
             if v and v[0] == "fn":
                 entries.append((slot, v[1]))
         for pyname, slot in (("get", "get"), ("has_key", "has_key"), ("insert", "insert/add"),
-                             ("add", "insert/add")):
+                             ("add", "insert/add"), ("pop", "pop/setdefault/remove"),
+                             ("setdefault", "pop/setdefault/remove"), ("remove", "pop/setdefault/remove")):
             fn = meths.get((tname, pyname))
+            if pyname == "pop" and tname in ("SetType", "TreeSetType"):
+                continue        # set.pop() takes no key
             if fn and not (pyname == "insert" and tname == "BTreeType"):
                 entries.append((slot, fn))
             elif fn and pyname == "insert":
@@ -266,7 +270,7 @@ def analyse_tu(tu):
             for r, x in sorted(cf_exits, key=repr):
                 if not pred(r, x):
                     findings.append(dict(
-                        rule="READ-ABSENCE" if "ass" not in slot and "insert" not in slot else "WRITE-TYPEERROR",
+                        rule="READ-ABSENCE" if slot in ("mp_subscript", "get", "sq_contains", "has_key") else "WRITE-TYPEERROR",
                         function=fname, file=tu.funcs[fname].f, line=tu.funcs[fname].l,
                         construct="%s exits with return=%s exception=%s (expected %s)" % (
                             fname, {0: "NULL/0", "NN": "object", -1: "-1"}.get(r, r), x, want),
